@@ -12,21 +12,26 @@ From TP Require Import Model.Prelude Extracted Model.Toxics Model.Timed Proofs.G
     and [pstate_ok] says a limit_data stage runs on its own stub (C04 below). *)
 Theorem C07_stage_total_init : forall tx ps now, pstate_ok tx ps -> mode_of (init_state tx ps now) <> MDead.
 Proof. exact stage_total_init. Qed.
+Print Assumptions C07_stage_total_init.
 
 Theorem C07_stage_total_input : forall tx ps now draws (c : option chunk) acc tmr,
   wf tx (Idle acc tmr) -> pstate_ok tx ps ->
   mode_of (fst (on_input tx ps now draws c (Idle acc tmr))) <> MDead.
 Proof. exact stage_total_input. Qed.
+Print Assumptions C07_stage_total_input.
 
 Theorem C07_stage_total_timer : forall tx now s, wf tx s -> mode_of (on_timer tx now s) <> MDead.
 Proof. exact stage_total_timer. Qed.
+Print Assumptions C07_stage_total_timer.
 
 Theorem C07_stage_total_sent : forall tx ps now (c : chunk) k,
   wf tx (Send c k) -> pstate_ok tx ps -> mode_of (fst (on_sent tx ps now (Send c k))) <> MDead.
 Proof. exact stage_total_sent. Qed.
+Print Assumptions C07_stage_total_sent.
 
 Theorem C07_stage_total_interrupt : forall tx now s, wf tx s -> mode_of (on_interrupt now s) <> MDead.
 Proof. exact stage_total_interrupt. Qed.
+Print Assumptions C07_stage_total_interrupt.
 
 (** the slicer's recursion: for every average_size, size_variation, chunk size and draw sequence it
     terminates within size+1 levels, never calls rand.Intn with a non-positive argument, and cuts
@@ -37,6 +42,7 @@ Theorem C07_slicer_total : forall fuel avg var start end_ draws,
                 covers os start end_ /\
                 (start < end_ -> pieces_within (end_ - start) os).
 Proof. exact slicer_chunk_total. Qed.
+Print Assumptions C07_slicer_total.
 
 (** the inputs that killed the pinned code (findings F5a-d, repaired) are harmless on the current
     model, and the pinned arithmetic that made them fatal *)
@@ -48,6 +54,7 @@ Theorem C07_f5_inputs_survive :
   (exists l, run_quiet 50 1000000000 (link_init [(TBandwidth (-1), true)] [SWrite 0 [1;2;3]] []) = Some l /\
              existsb (fun s => match s_st s with Panicked _ => true | _ => false end) (l_stubs l) = false).
 Proof. exact f5_inputs_survive. Qed.
+Print Assumptions C07_f5_inputs_survive.
 
 Theorem C07_f5_pinned_arithmetic :
   wrap64 (4611686018427387904 * 2) <= 0 /\
@@ -55,19 +62,23 @@ Theorem C07_f5_pinned_arithmetic :
   ((23 - 0 - 10 <=? 12) = false)%Z /\ slicer_mid_adj (slicer_mid 0 23) 0 12 = -1 /\
   (forall fuel, slicer_chunk_pinned fuel 0 0 0 1 = None).
 Proof. exact f5_pinned_arithmetic. Qed.
+Print Assumptions C07_f5_pinned_arithmetic.
 
 (** a stage is only ever started on the stub of its own toxic (C04's alignment), so limit_data
     always finds its own state: the other way to panic is closed *)
 Theorem C07_wrong_state_would_panic : forall nb now, mode_of (init_state (TLimitData nb) None now) = MDead.
 Proof. exact wrong_state_panics. Qed.
+Print Assumptions C07_wrong_state_would_panic.
 
 Theorem C07_stubs_stay_aligned : forall ops, aligned (crun ops).
 Proof. exact (run_aligned (eq_refl : remove_always_splices = true)). Qed.
+Print Assumptions C07_stubs_stay_aligned.
 
 (** the API handlers are total functions: every request, whatever its method, path, body or
     attribute values, gets an answer and leaves a well-defined state *)
 Theorem C07_api_total : forall e s r, exists resp s', api_step e s r = (resp, s').
 Proof. intros e s r. destruct (api_step e s r) as [resp s']. eauto. Qed.
+Print Assumptions C07_api_total.
 
 (** regenerated from api.go on every run: the API server bounds the time a client may take to send a
     request including its body (http.Server.ReadTimeout). The toxic handlers parse the body while
@@ -75,3 +86,4 @@ Proof. intros e s r. destruct (api_step e s r) as [resp s']. eauto. Qed.
     bound one stalled upload freezes the proxy for as long as the client likes. *)
 Theorem C07_api_body_read_is_bounded : 0 < api_body_read_deadline_ns <= 30000000000.
 Proof. unfold api_body_read_deadline_ns. lia. Qed.
+Print Assumptions C07_api_body_read_is_bounded.
